@@ -278,4 +278,21 @@ theorem raw_putbytes_fields_lock :
      ("v1.10.0", ["distributed_validators[].builder_registration.message.fee_recipient"]),
      ("v1.11.0", ["distributed_validators[].builder_registration.message.fee_recipient"])] := by decide +kernel
 
+/-! ## `charon combine`: which share sets are recombined -/
+
+/-- **Combine accepts exactly the share sets of at least threshold size** (model of the sufficiency
+check of `cmd/combine.Combine`, tied to the real command by the ops `combine` of stream `cluster`). -/
+theorem combine_accepts_iff (t k : Nat) : combineAccepts t k = true ↔ t ≤ k := by
+  simp [combineAccepts]
+
+/-- **A share set of exactly threshold size is recombined** — in particular an n-of-n cluster and a
+cluster that lost n − t nodes — and one share less is refused. Acceptance with distinct share
+indices is precisely the hypothesis `t ≤ S.card` of C08 `recover_secret`; that the secret written by
+the command is that recovery (`tbls.RecoverSecret` of the same shares, public key = the lock's
+validator key) is checked on the real command by the monitor `cluster:combine_wrong_key`, not proved here. -/
+theorem combine_exact_threshold_accepted (t : Nat) :
+    combineAccepts t t = true ∧ (0 < t → combineAccepts t (t - 1) = false) := by
+  refine ⟨by simp [combineAccepts], fun h => ?_⟩
+  simp [combineAccepts]; omega
+
 end CharonV.Ssz
